@@ -496,6 +496,9 @@ MUTANTS = [
 REPAIRS = []
 
 EQUIV = [
+    dict(name='the saved control names are restored in a finally clause (nothing set back)', file='sc3/synth/synthdef.py',
+         old="        self._args_to_controls(func, rates, len(prepend))\n        result = func(*(prepend + self._build_controls()))\n        self._control_names = save_ctl_names\n",
+         new="        try:\n            self._args_to_controls(func, rates, len(prepend))\n            result = func(*(prepend + self._build_controls()))\n        finally:\n            self._control_names = save_ctl_names\n"),
     dict(name='rename locals of LagControl._init_ugen', file='sc3/synth/ugens/inout.py', start='    def _init_ugen(self, *stuff):', end="    def __repr__(self):\n        return f'{type(self).__name__}.kr", rename=[('size2', 'half'), ('stuff', 'args')]),
     dict(name='slot size through ControlName.channels', file='sc3/synth/synthdef.py',
          old="                    cn.index = index\n                    index += len(utl.as_list(cn.default_value))\n                    arguments[cn.arg_num] = ctrl_ugens[i]\n                    self._set_control_names(ctrl_ugens[i], cn)\n\n        build_ita",
